@@ -9,6 +9,7 @@ from __future__ import annotations
 import ast
 
 from engine.cfg import call_name, cfg_of
+from engine.errors import AnalysisError
 from engine.repo import walk_no_nested
 from engine.util import calls_in, unparse
 
@@ -252,3 +253,161 @@ def entity_getters_hand_out_copies(ctx, rule):
                        f'{[unparse(x) for x in leaks]}; an application that edits the entity edits the committed containers, '
                        f'which a Get response that was selected earlier is still being serialised from', fi=fi, node=r)
     ctx.floor(rule, n, 5, 'return statements of the entity getters')
+    # ... and every call makes its own copies: a getter that remembers the entity it made (a cache keyed by a counter) hands the
+    # same object to two callers, and to the second one with whatever the first one did to it
+    EG = 'sdc11073.mdib.mdibbase.EntityGetter'
+    m = 0
+    for q, ci in sorted(repo.classes.items()):
+        if EG not in repo.mro(q):
+            continue
+        for name, fi in sorted(ci.methods.items()):
+            if name == '__init__':
+                continue
+            m += 1
+            stores = [unparse(t) for x in walk_no_nested(fi.node) if isinstance(x, (ast.Assign, ast.AugAssign, ast.AnnAssign))
+                      for t in (x.targets if isinstance(x, ast.Assign) else [x.target])
+                      if isinstance(t, (ast.Attribute, ast.Subscript)) and unparse(t).startswith('self.')
+                      and not unparse(t).startswith('self._mdib.')]
+            stores += [unparse(c)[:60] for c in calls_in(fi.node) if isinstance(c.func, ast.Attribute) and
+                       c.func.attr in ('append', 'setdefault', 'update', 'add') and unparse(c.func.value).startswith('self._')
+                       and not unparse(c.func.value).startswith('self._mdib')]
+            memo = [unparse(d) for d in fi.node.decorator_list if 'cache' in unparse(d)]
+            ctx.ob(rule, f'{ci.name}.{name} keeps nothing', not stores and not memo,
+                   f'{ci.name}.{name} keeps no entity between calls' if not stores and not memo else
+                   f'{ci.name}.{name} stores {stores or memo} on the getter: a later call is answered with the entity object an '
+                   f'earlier caller already holds (and may have changed) instead of a fresh copy of the MDIB content', fi=fi)
+    ctx.floor(rule, m, 5, 'methods of the entity getters')
+
+
+def written_entities_are_copied(ctx, rule):
+    """write_entity / write_entities take the containers of an entity the caller keeps: what they put into the transaction
+    (TransactionItem.new) is a deep copy on every path, or the object the caller still holds becomes the MDIB object with the
+    commit and every later change of it changes the MDIB without a transaction."""
+    from engine.util import local_assignments
+    from .c03 import _is_copy_expr
+    repo = ctx.repo
+    n = 0
+    for q, fi in sorted(repo.funcs.items()):
+        if fi.module.name != 'sdc11073.mdib.transactions' or not fi.name.startswith('write_entit') or fi.cls is None:
+            continue
+        assigns = local_assignments(fi.node)
+        assigns = {k: [v for v in vs if not (isinstance(v, ast.Constant) and v.value is None)] for k, vs in assigns.items()}
+        g = cfg_of(fi)
+        for c in calls_in(fi.node, 'TransactionItem'):
+            new = c.args[1] if len(c.args) > 1 else next((k.value for k in c.keywords if k.arg == 'new'), None)
+            if new is None or (isinstance(new, ast.Constant) and new.value is None):
+                continue
+            n += 1
+            ok = _is_copy_expr(new, assigns)
+            ctx.ob(rule, f'{fi.cls.name}.{fi.name}: TransactionItem(.., {g.canon_text(g.holder(c), new)}) is a copy', ok,
+                   f'{fi.cls.name}.{fi.name}: the container that enters the transaction is a deep copy of the entity\'s' if ok else
+                   f'{fi.cls.name}.{fi.name}: on some path TransactionItem(.., {unparse(new)}) carries the object of the caller\'s '
+                   f'entity itself (values: {[unparse(v)[:50] for v in assigns.get(getattr(new, "id", ""), [])]}): after the '
+                   f'commit the caller holds the MDIB object and changes it without a transaction', fi=fi, node=c)
+    ctx.floor(rule, n, 4, 'containers put into a transaction by write_entity')
+
+
+LOG_METHODS = ('debug', 'info', 'warning', 'warn', 'error', 'exception', 'critical', 'log')
+
+
+def _const_text(e, assigns, aug, depth=3):
+    """e is a string built from literals only (literal, + of literals, f-string without fields, local bound to such)."""
+    if isinstance(e, ast.Constant):
+        return isinstance(e.value, str)
+    if isinstance(e, ast.BinOp) and isinstance(e.op, ast.Add):
+        return _const_text(e.left, assigns, aug, depth) and _const_text(e.right, assigns, aug, depth)
+    if isinstance(e, ast.JoinedStr):
+        return all(isinstance(v, ast.Constant) for v in e.values)
+    if isinstance(e, ast.IfExp):
+        return _const_text(e.body, assigns, aug, depth) and _const_text(e.orelse, assigns, aug, depth)
+    if isinstance(e, ast.Name) and depth > 0 and e.id in assigns:
+        return all(_const_text(v, assigns, aug, depth - 1) for v in assigns[e.id] + aug.get(e.id, []))
+    return False
+
+
+def log_templates_are_constant(ctx, rule, module_prefixes, floor=5):
+    """LoggerAdapter runs str.format(*args) over the template whenever arguments are given: a template that contains run
+    time text (an exception text, a handle, a QName in Clark notation `{ns}name`) makes the log call itself raise - in the
+    middle of the operation it only meant to describe. Every log call with arguments has a template made of literals."""
+    from engine.util import local_assignments
+    repo = ctx.repo
+    n = 0
+    for q, fi in sorted(repo.funcs.items()):
+        if not fi.module.name.startswith(tuple(module_prefixes)):
+            continue
+        assigns = aug = None
+        params = {a.arg for a in fi.node.args.args + fi.node.args.kwonlyargs}
+        for c in calls_in(fi.node):
+            if not (isinstance(c.func, ast.Attribute) and c.func.attr in LOG_METHODS and 'log' in unparse(c.func.value).lower()):
+                continue
+            pos = 1 if c.func.attr == 'log' else 0
+            if len(c.args) <= pos:
+                continue
+            tmpl, rest = c.args[pos], c.args[pos + 1:]
+            if not rest and not [k for k in c.keywords if k.arg not in ('exc_info', 'stack_info', 'stacklevel', 'extra')]:
+                continue   # no arguments: the text is logged as it is
+            if isinstance(tmpl, ast.Name) and tmpl.id in params and any(isinstance(a, ast.Starred) for a in rest):
+                continue   # a forwarding helper; its callers are judged
+            if assigns is None:
+                assigns = local_assignments(fi.node)
+                aug = {}
+                for x in walk_no_nested(fi.node):
+                    if isinstance(x, ast.AugAssign) and isinstance(x.target, ast.Name):
+                        aug.setdefault(x.target.id, []).append(x.value)
+            n += 1
+            ok = _const_text(tmpl, assigns, aug)
+            if not ok:
+                ctx.ob(rule, f'{fi.name}: log template {unparse(tmpl)[:50]}', False,
+                       f'{fi.cls.name + "." if fi.cls else ""}{fi.name}: the template of a log call with arguments contains '
+                       f'run-time text ({unparse(tmpl)[:70]}); LoggerAdapter formats the whole template with str.format, a '
+                       f'brace in that text (QName in Clark notation, repr of a dict, an exception text) makes the log call '
+                       f'raise and the function stops before it did what it logs', fi=fi, node=c)
+    ctx.ob(rule, 'log templates are literals', True, f'{n} log calls with arguments use a template made of literals only')
+    ctx.floor(rule, n, floor, 'log calls with arguments')
+
+
+def element_text_lists_split_on_whitespace(ctx, rule):
+    """An xs:list in element content (wsd:Types, wsd:Scopes, wsd:XAddrs, dpws:Types ...) is separated by any XML white space:
+    peers wrap long lists over several lines. The readers of element text split with `split()` (no separator); a split on the
+    single blank keeps '\\n' / '\\t' inside the items (attribute values are different: the parser normalises them)."""
+    repo = ctx.repo
+    n = 0
+    for q, ci in sorted(repo.classes.items()):
+        if not q.startswith(XS + '.'):
+            continue
+        fi = ci.methods.get('get_py_value_from_node')
+        if fi is None:
+            continue
+        for c in calls_in(fi.node, 'split'):
+            if not (isinstance(c.func, ast.Attribute) and isinstance(c.func.value, ast.Attribute) and c.func.value.attr == 'text'):
+                continue
+            if isinstance(getattr(c, '_parent', None), ast.Assign) and isinstance(c._parent.targets[0], ast.Tuple):  # noqa: SLF001
+                continue   # prefix:localname of one QName, not a list
+            n += 1
+            sep = c.args[0] if c.args else next((k.value for k in c.keywords if k.arg == 'sep'), None)
+            ok = sep is None or (isinstance(sep, ast.Constant) and sep.value is None)
+            ctx.ob(rule, f'{ci.name}: list items separated by any white space', ok,
+                   f'{ci.name}.get_py_value_from_node splits the element text at any white space' if ok else
+                   f'{ci.name}.get_py_value_from_node splits the element text with {unparse(c)}: a list that a peer wrapped '
+                   f'over lines (or separated by tabs / two blanks) is read as items containing white space or as empty items; '
+                   f'scopes and types parsed from it match nothing', fi=fi, node=c)
+    ctx.floor(rule, n, 2, 'readers of list-valued element text')
+
+
+def update_from_other_is_total(ctx, rule):
+    """ContainerBase._update_from_other takes over every property that is not explicitly skipped - whatever its value in the
+    other container (None, implied, falsy): the in-place update of a mirrored container must also *remove* what the new version
+    no longer states."""
+    repo = ctx.repo
+    fi = repo.func('sdc11073.mdib.containerbase.ContainerBase._update_from_other')
+    g = cfg_of(fi)
+    sets = [(n, c) for n, c in g.nodes_calling('setattr') if c.args and unparse(c.args[0]) == 'self']
+    if not sets:
+        raise AnalysisError(f'{rule}: _update_from_other sets nothing on self any more')
+    for n, c in sets:
+        cond = [(t, p) for t, p in g.facts_at(n).both() if 'skipped' not in t]
+        ctx.ob(rule, '_update_from_other takes over every value', not cond and bool(n.loops),
+               '_update_from_other copies every property that is not in skipped_properties' if not cond and n.loops else
+               f'_update_from_other copies a property only under {cond}: a member that the new version of the container no longer '
+               f'has (or has with another kind of value) keeps its old value in the container that is updated in place', fi=fi,
+               node=c)
